@@ -7,7 +7,7 @@
 (* kinds, so the tag is always compared first):                             *)
 (*   [t |-> "null"]                                                         *)
 (*   [t |-> "bool", b |-> BOOLEAN]                                          *)
-(*   [t |-> "num",  h |-> Int]        h counts HALF units: 3 stands for 1.5 *)
+(*   [t |-> "num",  h |-> Int]        h counts QUARTERS: 6 stands for 1.5  *)
 (*   [t |-> "big",  e |-> Nat, sg |-> {-1,1}, o |-> Int]   sg*2^e + o       *)
 (*   [t |-> "str",  s |-> Seq(CharId)]                                      *)
 (*   [t |-> "arr",  a |-> Seq(Doc)]                                         *)
@@ -17,7 +17,7 @@
 (* field is optional (tested with Has).  Conventions that differ from the   *)
 (* JSON text, undone by the harness' concretiser (harness/abs/concretize.go)*)
 (*   type                 always a sequence of type names                   *)
-(*   minimum, maximum, multipleOf     Int in half units (or a "big" record) *)
+(*   minimum, maximum, multipleOf     Int in quarters   (or a "big" record) *)
 (*   exclusiveMinimum/Maximum         [k |-> "b", b |-> BOOLEAN] or         *)
 (*                                    [k |-> "n", h |-> Int]                *)
 (*   pattern              a pattern id, see PatMatch                        *)
@@ -78,12 +78,16 @@ ByteLen(cs) == IF cs = <<>> THEN 0 ELSE Width(Head(cs)) + ByteLen(Tail(cs))
 
 \* The closed pattern family (identical meaning in RE2 and ECMA-262):
 \*   "p_a"   ^a        "p_b"   b$        "p_ab"  ^[ab]*$       "p_2"   ^.{2}$
-PatIds == {"p_a", "p_b", "p_ab", "p_2"}
+\*   "p_pct" ^[ab%]*$  (= p_ab on the alphabet; a '%' in the pattern text)
+\*   "p_esc" ^\x61+$   (one or more "a"; a backslash escape in the pattern text)
+PatIds == {"p_a", "p_b", "p_ab", "p_2", "p_pct", "p_esc"}
 PatMatch(p, cs) ==
   CASE p = "p_a"  -> cs # <<>> /\ cs[1] = "a"
     [] p = "p_b"  -> cs # <<>> /\ cs[Len(cs)] = "b"
     [] p = "p_ab" -> \A i \in DOMAIN cs : cs[i] \in {"a", "b"}
     [] p = "p_2"  -> Len(cs) = 2
+    [] p = "p_pct" -> \A i \in DOMAIN cs : cs[i] \in {"a", "b"}
+    [] p = "p_esc" -> cs # <<>> /\ \A i \in DOMAIN cs : cs[i] = "a"
     [] OTHER -> TRUE
 
 (* ---------- three-valued logic ---------- *)
@@ -109,14 +113,15 @@ EnvHas(env, n) == \E i \in DOMAIN env : env[i].k = n
 EnvGet(env, n) == env[CHOOSE i \in DOMAIN env : env[i].k = n].s
 
 (* ---------- numbers ---------- *)
-\* All comparisons on half units.  "big" landmark numerals are ordered by value: sg*2^e + o with
+\* All comparisons on quarter units (U = 4: h stands for h/4; exact in float64 and in decimal text).  "big" landmark numerals are ordered by value: sg*2^e + o with
 \* |o| far smaller than the gap between consecutive landmarks, so the order is lexicographic.
 BigKey(x) == IF x.t = "big" THEN <<x.sg * x.e, x.o>> ELSE <<0, x.h>>  \* e >= 7 for landmarks, 0 for small
 NumLT(x, y) == LET a == BigKey(x) b == BigKey(y) IN a[1] < b[1] \/ (a[1] = b[1] /\ a[2] < b[2])
 NumEQ(x, y) == BigKey(x) = BigKey(y)
 NumLE(x, y) == NumLT(x, y) \/ NumEQ(x, y)
-AsNum(v)    == IF v \in Int THEN JNum(v) ELSE v         \* schema constants may be plain half units
-IsIntegral(x) == IF x.t = "big" THEN TRUE ELSE x.h % 2 = 0
+AsNum(v)    == IF v \in Int THEN JNum(v) ELSE v         \* schema constants may be plain quarter counts
+U == 4
+IsIntegral(x) == IF x.t = "big" THEN TRUE ELSE x.h % U = 0
 
 ExclKind(s, k) == IF Has(s, k) THEN s[k].k ELSE "none"
 
